@@ -114,4 +114,13 @@ META = {
             "note": "n is the number of operations executed so far in the program (the weakest reading of the bound). Shadow exponentials by scaling and squaring in "
                     "long double; hook H3 (compat/odeint.hpp) only observes. Sampled histories only.",
             "technique": "runtime monitoring: shadow execution (history + executable model) with invariant checks at an instrumentation hook, ASan/UBSan"},
+    "C18": {"text": "Exploration of schedules under ThreadSanitizer: 5 (quick) / 20 (thorough) independent processes, each running cases with 2..16 threads "
+                    "that loop over const operations on shared const objects with thread creation/join as the only synchronisation; every ThreadSanitizer "
+                    "report whose stack contains a smooth frame is a violation (keyed by the outermost smooth frames), and every per-thread result is "
+                    "compared bit-for-bit with a sequential run made afterwards (also in an uninstrumented build at full speed). The first case of each "
+                    "process performs the first use of all function-local statics inside the racing threads. Evidence counts the overlapping "
+                    "operation pairs actually observed.",
+            "note": "Only schedules the OS produced (plus TSan's happens-before generalisation); the monitor itself uses no atomics/locks/barriers, only per-thread clock reads. "
+                    "A TSan report without a smooth frame is counted separately (none observed).",
+            "technique": "runtime monitoring: ThreadSanitizer + differential concurrent-vs-sequential result checking"},
 }
